@@ -9,6 +9,7 @@ import (
 	"os"
 	"path/filepath"
 	"regexp"
+	"runtime/debug"
 	"sort"
 	"strconv"
 	"strings"
@@ -629,6 +630,25 @@ func (c *Ctx) RunHash(trace []simrt.Event, extra ...any) {
 }
 
 // safely runs f and reports whether it panicked.
+// libPanic runs f and reports a panic that was raised by go-sstables code (a frame of the library is on the panicking
+// stack): in a fault-free arm such a panic on valid input is a violation of the property being decided. A panic of the
+// harness itself is passed on (infrastructure trouble).
+func libPanic(f func()) (msg string) {
+	defer func() {
+		if r := recover(); r != nil {
+			st := string(debug.Stack())
+			// frames between the panic and this recover: look for the library below runtime.gopanic
+			if i := strings.Index(st, "panic("); i >= 0 && strings.Contains(st[i:], "github.com/thomasjungblut/go-sstables/") {
+				msg = fmt.Sprintf("panic: %v", r)
+				return
+			}
+			panic(r)
+		}
+	}()
+	f()
+	return ""
+}
+
 func safely(f func()) (panicked bool) {
 	defer func() {
 		if r := recover(); r != nil {
